@@ -166,6 +166,30 @@ func runC04(em *vEmitter, r *vRng) {
 			record(fe, x, observed, "frontend/")
 		}
 	}
+	// requests that leave fields out, right after an accepted login on the same listener: a missing field
+	// is an empty field (state kept between requests must not fill it in)
+	for round := 0; round < 6; round++ {
+		a := accts[round%len(accts)]
+		if !utf8.ValidString(a.user) || !utf8.ValidString(a.pw) {
+			continue
+		}
+		post := func(body string) bool {
+			rec := httptest.NewRecorder()
+			mux.ServeHTTP(rec, httptest.NewRequest("POST", "/api/authenticate", strings.NewReader(body)))
+			return rec.Code == http.StatusOK
+		}
+		ub, _ := json.Marshal(a.user)
+		pb, _ := json.Marshal(a.pw)
+		full := fmt.Sprintf(`{"username":%s,"password":%s}`, ub, pb)
+		for _, inc := range []struct{ body, u, p string }{
+			{fmt.Sprintf(`{"username":%s}`, ub), a.user, ""}, {`{}`, "", ""}, {fmt.Sprintf(`{"username":%s,"password":null}`, ub), a.user, ""},
+			{fmt.Sprintf(`{"password":%s}`, pb), "", a.pw}, {fmt.Sprintf(`{"username":null,"password":%s}`, pb), "", a.pw}} {
+			for rep := 0; rep < 4; rep++ {
+				post(full)
+				record("FApi", q{inc.u, inc.p}, post(inc.body), "frontend-incomplete/")
+			}
+		}
+	}
 	// the same questions from many clients at once: nothing in the store changes, so every answer must
 	// still be the store's verdict for that very pair (answers must not cross between connections)
 	{
